@@ -441,6 +441,28 @@ func c01Counter(p *core.Program, r *core.Report) {
 		r.Undec("C01.counter", "io.DataOutputX", "-", "type not found")
 		return
 	}
+	// the two fields the rule is about, by role: the buffer is the field of type bytes.Buffer, the
+	// counter is the integer field Size() returns
+	bufField, cntField := "buffer", "written"
+	if st, ok := outT.Underlying().(*types.Struct); ok {
+		for i := 0; i < st.NumFields(); i++ {
+			if strings.HasSuffix(strings.TrimPrefix(st.Field(i).Type().String(), "*"), "bytes.Buffer") {
+				bufField = st.Field(i).Name()
+			}
+		}
+	}
+	if sz := p.Method("io", "DataOutputX", "Size"); sz != nil && sz.Decl.Body != nil {
+		ast.Inspect(sz.Decl.Body, func(n ast.Node) bool {
+			if rs, ok := n.(*ast.ReturnStmt); ok && len(rs.Results) == 1 {
+				if sel, ok := ast.Unparen(stripConvs(sz.Pkg.TypesInfo, rs.Results[0])).(*ast.SelectorExpr); ok {
+					if fv, ok := sz.Pkg.TypesInfo.ObjectOf(sel.Sel).(*types.Var); ok && fv.IsField() {
+						cntField = fv.Name()
+					}
+				}
+			}
+			return true
+		})
+	}
 	touch := map[string]bool{}
 	for _, fi := range p.Funcs {
 		if fi.Decl.Body == nil {
@@ -462,7 +484,7 @@ func c01Counter(p *core.Program, r *core.Report) {
 			if nt := namedOf(s.Recv()); nt == nil || nt.Obj() != outT.Obj() {
 				return true
 			}
-			if sel.Sel.Name == "buffer" || sel.Sel.Name == "written" {
+			if sel.Sel.Name == bufField || sel.Sel.Name == cntField {
 				uses = true
 			}
 			return true
@@ -480,7 +502,7 @@ func c01Counter(p *core.Program, r *core.Report) {
 			switch v := n.(type) {
 			case *ast.CallExpr:
 				if sel, ok := v.Fun.(*ast.SelectorExpr); ok {
-					if inner, ok := sel.X.(*ast.SelectorExpr); ok && inner.Sel.Name == "buffer" {
+					if inner, ok := sel.X.(*ast.SelectorExpr); ok && inner.Sel.Name == bufField {
 						switch sel.Sel.Name {
 						case "Write":
 							appends = append(appends, amountOfSlice(v.Args[0]))
@@ -498,7 +520,7 @@ func c01Counter(p *core.Program, r *core.Report) {
 				}
 			case *ast.AssignStmt:
 				if len(v.Lhs) == 1 {
-					if sel, ok := v.Lhs[0].(*ast.SelectorExpr); ok && sel.Sel.Name == "written" {
+					if sel, ok := v.Lhs[0].(*ast.SelectorExpr); ok && sel.Sel.Name == cntField {
 						switch v.Tok {
 						case token.ADD_ASSIGN:
 							incs = append(incs, types.ExprString(v.Rhs[0]))
@@ -512,7 +534,7 @@ func c01Counter(p *core.Program, r *core.Report) {
 					}
 				}
 			case *ast.IncDecStmt:
-				if sel, ok := v.X.(*ast.SelectorExpr); ok && sel.Sel.Name == "written" && v.Tok == token.INC {
+				if sel, ok := v.X.(*ast.SelectorExpr); ok && sel.Sel.Name == cntField && v.Tok == token.INC {
 					incs = append(incs, "1")
 				}
 			}
@@ -537,7 +559,7 @@ func c01Counter(p *core.Program, r *core.Report) {
 	if sz != nil && len(sz.Decl.Body.List) == 1 {
 		if rs, ok := sz.Decl.Body.List[0].(*ast.ReturnStmt); ok && len(rs.Results) == 1 {
 			sel, ok := rs.Results[0].(*ast.SelectorExpr)
-			r.Check(ok && sel.Sel.Name == "written", "C01.counter", "io.(*DataOutputX).Size", p.Pos(sz.Decl.Pos()), "returns written", "Size() does not return the byte counter")
+			r.Check(ok && sel.Sel.Name == cntField, "C01.counter", "io.(*DataOutputX).Size", p.Pos(sz.Decl.Pos()), "returns written", "Size() does not return the byte counter")
 		}
 	}
 }
